@@ -2421,7 +2421,8 @@ impl InferContext {
                 self.env.add_bind(&[(*id, (feedv, self.stage))]);
                 let bty = self.infer_type_unwrapping(*body);
                 let _rel = self.unify_types(bty, feedv)?;
-                if bty.to_type().contains_function() {
+                // look through type variables that are already resolved (e.g. a let-bound closure)
+                if Self::substitute_type(bty).to_type().contains_function() {
                     Err(vec![Error::NonPrimitiveInFeed(body.to_location())])
                 } else {
                     Ok(bty)
